@@ -273,6 +273,10 @@ def random_rois(ctx: Ctx, n: int) -> None:
             b = (r.randint(0, 4000), r.randint(0, 3000), r.randint(1, 2000), r.randint(1, 2000))
         ctx.begin_case("roi_random", idx, a=a, b=b)
         oa, ob = O.obj2d(a), O.obj2d(b)
+        if r.random() < 0.3:
+            # 2D boxes that also carry the optional 3D position of the thing they show: the 2D scores stay those of the ROIs
+            oa.set_position((r.uniform(-50, 50), r.uniform(-50, 50), r.uniform(0, 5)))
+            ob.set_position((r.uniform(-50, 50), r.uniform(-50, 50), r.uniform(0, 5)))
         v, vs = values(oa, ob), values(ob, oa)
         ctx.check(v["cd"] == vs["cd"] and abs(v["iou2d"] - vs["iou2d"]) <= 1e-12, "C06/score_not_symmetric", dict(a=a, b=b, v=v, vs=vs), "MatchingMethod")
         # common translation of both ROIs
